@@ -86,7 +86,7 @@ class Check(object):
         st.locals = dict(env)
         return ev.ev(tree.body, st, Frame(fi, None, ("spec",)))
 
-    def ref(self, src, host, module="bt/core.py", bindings=None, depth=None):
+    def ref(self, src, host, module="bt/core.py", bindings=None, depth=None, no_inline=()):
         """Evaluate a reference model (Python source of one function) with the same engine."""
         import ast
 
@@ -94,7 +94,7 @@ class Check(object):
 
         node = ast.parse(src).body[0]
         fi = FuncInfo(module, host, node)
-        ev = Evaluator(self.prog, inline_depth=self.inline_depth if depth is None else depth)
+        ev = Evaluator(self.prog, inline_depth=self.inline_depth if depth is None else depth, no_inline=no_inline)
         s = ev.summarize(fi, host, bindings=bindings)
         s.evaluator = ev
         return s
